@@ -2,6 +2,10 @@ package m04
 
 import (
 	"fmt"
+	"strconv"
+	"strings"
+	"unicode"
+	"unicode/utf8"
 
 	"github.com/robertkrimen/otto/ast"
 )
@@ -66,4 +70,105 @@ func CheckSpans(t *Tree, base, srcLen int) []Issue {
 		}
 	}
 	return out
+}
+
+// identRun decodes the IdentifierName that starts at src[at:] (letters, digits, $, _, \uXXXX
+// escapes, non-ASCII characters other than white space and line terminators).
+func identRun(src string, at int) string {
+	var b strings.Builder
+	for i := at; i < len(src); {
+		c := src[i]
+		switch {
+		case c == '$' || c == '_' || c >= '0' && c <= '9' || c >= 'a' && c <= 'z' || c >= 'A' && c <= 'Z':
+			b.WriteByte(c)
+			i++
+		case c == '\\' && i+6 <= len(src) && src[i+1] == 'u':
+			v, err := strconv.ParseUint(src[i+2:i+6], 16, 32)
+			if err != nil {
+				return b.String()
+			}
+			b.WriteRune(rune(v))
+			i += 6
+		case c >= utf8.RuneSelf:
+			r, sz := utf8.DecodeRuneInString(src[i:])
+			if (r == utf8.RuneError && sz == 1) || unicode.IsSpace(r) || r == 0xFEFF || r == 0x2028 || r == 0x2029 {
+				return b.String()
+			}
+			b.WriteRune(r)
+			i += sz
+		default:
+			return b.String()
+		}
+	}
+	return b.String()
+}
+
+// CheckLeafText compares, for every leaf node, the source text its span points at with what the
+// node says it is: an identifier (binding, label, parameter, property name, variable declaration)
+// must start at an IdentifierName that decodes to its Name; this / null / true / false at that
+// word; a number, string or regular expression literal must cover exactly a text that begins
+// like such a literal ('/' for a regular expression, a quote for a string, a digit or '.' for a
+// number) and equals the spelling the node records. An off-by-one span is visible here even
+// when it stays inside the file and inside its parent.
+func CheckLeafText(t *Tree, src string, base int) []Issue {
+	var out []Issue
+	bad := func(rn *RNode, format string, a ...interface{}) {
+		out = append(out, Issue{"span-text", rn.Path(), rn.Type, fmt.Sprintf(format, a...), rn})
+	}
+	slice := func(rn *RNode) (string, int, bool) {
+		s := spanOf(rn.Node)
+		i0, i1 := s.I0-base, s.I1-base
+		if s.Panic != "" || i0 < 0 || i1 < i0 || i1 > len(src) {
+			return "", 0, false // reported by CheckSpans
+		}
+		return src[i0:i1], i0, true
+	}
+	word := func(rn *RNode, want string) {
+		if _, i0, ok := slice(rn); ok {
+			if got := identRun(src, i0); got != want {
+				bad(rn, "the span starts at %q, expected the name %q", clip(src[i0:]), want)
+			}
+		}
+	}
+	literal := func(rn *RNode, spelled string, first func(c byte) bool) {
+		text, _, ok := slice(rn)
+		if !ok {
+			return
+		}
+		if text == "" || !first(text[0]) || text != spelled {
+			bad(rn, "the span covers %q, the literal is %q", clip(text), clip(spelled))
+		}
+	}
+	for _, rn := range t.Nodes {
+		switch n := rn.Node.(type) {
+		case *ast.Identifier:
+			word(rn, n.Name)
+		case *ast.VariableExpression:
+			word(rn, n.Name)
+		case *ast.ThisExpression:
+			word(rn, "this")
+		case *ast.NullLiteral:
+			word(rn, "null")
+		case *ast.BooleanLiteral:
+			if n.Value {
+				word(rn, "true")
+			} else {
+				word(rn, "false")
+			}
+		case *ast.NumberLiteral:
+			literal(rn, n.Literal, func(c byte) bool { return c == '.' || c >= '0' && c <= '9' })
+		case *ast.StringLiteral:
+			literal(rn, n.Literal, func(c byte) bool { return c == '"' || c == '\'' })
+		case *ast.RegExpLiteral:
+			literal(rn, n.Literal, func(c byte) bool { return c == '/' })
+		}
+	}
+	return out
+}
+
+func clip(s string) string {
+	if len(s) > 24 {
+		return s[:24] + "…"
+	}
+	return s
 }
